@@ -200,6 +200,35 @@ func c20Commands(s c20Snap, col *collector, key string) *drv.Violation {
 	if sha256.Sum256(after) != sha256.Sum256(s.data) {
 		return drv.Violf("the source file was modified")
 	}
+	// --output naming the source itself (literally, and through an equivalent spelling of the path): whatever the
+	// command answers, the source must stay byte-identical and nothing else in the directory may change
+	for _, c := range [][]string{{"surgery", "revert-meta-page"}, {"surgery", "freelist", "abandon"}, {"surgery", "freelist", "rebuild"}} {
+		for _, outp := range []string{src, filepath.Join(dir, ".") + string(filepath.Separator) + "." + string(filepath.Separator) + "src.db"} {
+			before := dirState(dir)
+			args := append(append([]string{}, c...), src, "--output", outp)
+			code, o := runCLI(args...)
+			if code < 0 {
+				return drv.Violf("`bbolt %s` crashed or blocked: %s", strings.Join(args, " "), strings.TrimSpace(o))
+			}
+			now, err := os.ReadFile(src)
+			if err != nil {
+				return drv.Violf("`bbolt %s --output <the source itself>` (exit %d): the source file is gone: %v", strings.Join(c, " "), code, err)
+			}
+			if code != 0 && sha256.Sum256(now) != sha256.Sum256(s.data) {
+				return drv.Violf("`bbolt %s --output <the source itself>` failed (exit %d) and yet modified the source file", strings.Join(c, " "), code)
+			}
+			if code == 0 {
+				// accepted: then the file is the command's output and must hold what the command promises; restore it
+				_ = os.WriteFile(src, s.data, 0o600)
+			}
+			if d := dirDiff(before, dirState(dir), "src.db"); d != "" {
+				return drv.Violf("`bbolt %s --output <the source itself>` touched other files: %s", strings.Join(c, " "), d)
+			}
+			if col != nil {
+				col.Count("output_names_source_runs", 1)
+			}
+		}
+	}
 	return nil
 }
 
